@@ -179,8 +179,23 @@ def run(ctx):
         ctx.check(kw.get("lcd_warning") == "%s.timed_out" % gname, "R2", "%s(lcd_warning=<graph>.timed_out)" % nm, insp.where(),
                   "%s receives lcd_warning=%s" % (nm, kw.get("lcd_warning")), insp.qname, "%s lcd_warning" % nm)
     ft = ctx.func("Frontend._user_warnings_footer")
-    ctx.check(bool(pm.find("M_w += lcd_text if %s else ''" % ft.params()[1], ft.node)) and "LCD analysis timed out" in " ".join(
-        C.str_consts(ft.node)), "R2", "footer shows the time-out text iff lcd_warning", ft.where(), "footer changed", ft.qname,
+    # the footer as a function of the flag: folded for lcd_warning = True / False (the function only concatenates constants)
+    from .. import consteval
+    folded = {}
+    try:
+        for val in (True, False):
+            folded[val] = consteval.call(ft.node, None, val, globals=dict(ft.module.globals))
+    except consteval.Unsupported as e:
+        folded = None
+        ctx.note("R2: footer not folded (%s); falling back to the textual form" % e)
+    if folded is not None and all(k == "return" and isinstance(v, str) for k, v in folded.values()):
+        shown = {val: "LCD analysis timed out" in folded[val][1] for val in (True, False)}
+        footer_ok, footer_known = shown == {True: True, False: False}, True
+    else:
+        footer_ok = bool(pm.find("M_w += lcd_text if %s else ''" % ft.params()[1], ft.node)) and "LCD analysis timed out" in " ".join(
+            C.str_consts(ft.node))
+        footer_known = footer_ok
+    ctx.judge(footer_ok, footer_known, "R2", "footer shows the time-out text iff lcd_warning", ft.where(), "footer changed", ft.qname,
         "footer text")
     kd = [c for c in ast.walk(insp.node) if isinstance(c, ast.Call) and pm.call_name(c) == "KernelDG"]
     ki = C.param_index(init, "timeout")
